@@ -52,4 +52,42 @@ pub(crate) mod verif_peek {
 	pub unsafe fn keycell_force_unlock(c: &PeekCell) {
 		c.0.force_unlock()
 	}
+
+	/// Kani function contracts on the private `KeyCell` (attributes attached by T3, tools/t3_contracts.py)
+	#[cfg(verif_contracts)]
+	mod contract_proofs {
+		use super::super::*;
+		use super::real_flag;
+
+		#[kani::proof_for_contract(KeyCell::try_lock)]
+		fn c06_q_contract_keycell_try_lock() {
+			let c = KeyCell::default();
+			if kani::any() {
+				c.is_locked.set(true);
+			}
+			let _ = c.try_lock();
+		}
+
+		#[kani::proof_for_contract(KeyCell::force_unlock)]
+		fn c06_q_contract_keycell_force_unlock() {
+			let c = KeyCell::default();
+			if kani::any() {
+				c.is_locked.set(true);
+			}
+			unsafe { c.force_unlock() };
+		}
+
+		/// ThreadKey::get against the CONTRACT of KeyCell::try_lock (its body is replaced by the contract):
+		/// the modular step from the cell to the key
+		#[kani::proof]
+		#[kani::stub_verified(KeyCell::try_lock)]
+		fn c06_q_contract_get_uses_try_lock_contract() {
+			let before = real_flag();
+			let k = ThreadKey::get();
+			assert!(k.is_some() == !before, "C06_get_returns_key_iff_flag_was_clear");
+			assert!(real_flag(), "C06_get_sets_flag");
+			kani::cover!(k.is_some(), "got");
+			core::mem::forget(k);
+		}
+	}
 }
